@@ -189,7 +189,7 @@ def main():
             A_ = E.Abstractor()
             H = A_.assume(hy)
             P.oblige('geo2grid.hemisphere_rule', 'convert.geo2grid', ztag, E.prove(A_.ab(rule), H + A_.side, use_axioms=False), strict=True,
-                     refute=refute_tm(prj_, zone_), pool=tm_pool,
+                     refute=refute_tm(prj_, zone_), pool=tm_pool, goal=rule, hyps=hy,
                      note='South and false northing exactly when k0*A*xi < 0')
             if auto:
                 zo = lift(zone_out)
